@@ -126,6 +126,7 @@ PROPS = {
             rapid("c01", "TestPropRoundTrip", quick=(10000, 4), thorough=(150000, 12)),
             rapid("c01", "TestPropRefusal", quick=(3000, 1), thorough=(30000, 2)),
             rapid("c01", "TestPropForeignForms", quick=(10000, 2), thorough=(150000, 4)),
+            rapid("c01", "TestPropLongStream", quick=(150, 2), thorough=(3000, 8)),
             fuzz("c01", "FuzzRoundTrip", secs=150),
         ],
     },
@@ -161,6 +162,7 @@ PROPS = {
                         "CHECK is treated as NOOP by the server in every state and reaches no backend method"],
         "units": [
             plain("c05", "TestReplayScenarios"),
+            plain("c05", "TestReplayStartTLSPipelining"),
             rapid("c05", "TestPropStateMachine", quick=(500, 6), thorough=(8000, 14), shrinktime="20s"),
         ],
     },
